@@ -16,6 +16,14 @@ byte-level model of the stream between the two Machines:
   (d) brontide.Conn on top (Write with chunking above 65535 bytes, Read through readBuf with small caller buffers,
       underlying reads fragmented) - same traces, same judge; the named deviation ConnEmptyEOFQuirk is announced;
   (e) negative controls (a corrupted nonce, payload hash, error class, key fingerprint).
+Follow-up (three further behaviour classes, see the header of spec/Transport/Transport.tla):
+  (f) delivered data is a value: the caller keeps the slices ReadMessage / ReadNextBody handed it, Recheck re-hashes
+      them later, ConformHeld compares with the messages as sent; Release drops them (generator, bursts, free driver);
+  (g) full-duplex use of one Machine: WriteMessage parked where it fetches its pooled header buffer (WStage .. WEnc),
+      Flush parked between its two Writes (FlushHdr .. FlushBody), ReadNextHeader .. ReadNextBody as separate calls,
+      calls of the other halves recorded in between; exhaustively (every section boundary, Fine = TRUE) in TLC;
+  (h) brontide.Conn.Read as a byte stream from generated schedules too, judged only through what Read returns
+      (count, error, concatenated bytes of a drained message), the wire and the nonces - no Conn internals recorded.
 
 Mutation controls: mutations/C11/*.diff (run with VERIF_MUTATION=<diff> C11_SKIP_MC=1).
 """
@@ -27,10 +35,10 @@ import re
 from .. import core
 from ..core import Inconclusive
 
-SPEC = os.path.join(core.VERIF, "spec", "Transport")
+SPEC = os.environ.get("C11_SPEC_DIR") or os.path.join(core.VERIF, "spec", "Transport")
 LEVEL = "model_checking"
 PKG = "./brontide/"
-HARNESS = ["brontide/c11_test.go"]
+HARNESS = [os.environ.get("C11_HARNESS") or "brontide/c11_test.go"]
 MC_WORKERS = int(os.environ.get("C11_MC_WORKERS", "4"))
 REAL = {"ROT": 1000, "LEN": 2, "MAC": 16, "MaxSize": 65535, "ActLen": 50, "Act3Len": 66}
 ADV = ("Corrupt", "Truncate", "Drop", "Swap", "Replay", "ReplayOld", "Reflect", "AlterAct", "OldActOne")
@@ -53,18 +61,31 @@ def overlay():
 
 def model_checking(ck):
     thorough = ck.tier == "thorough"
-    base = {"MaxMsgs": 2, "MaxAdv": 1, "Sizes": "{0, 1, 2}", "Vals": "{0, 1}", "WDirs": '{"ab", "ba"}'}
+    base = {"MaxMsgs": 2, "MaxAdv": 1, "Sizes": "{0, 1, 2}", "Vals": "{0, 1}", "WDirs": '{"ab", "ba"}',
+            "Fine": "FALSE", "CSizes": "{}", "Wants": "{}", "Hold": "FALSE"}
     runs = [("both directions, 2 messages, 1 adversary move", dict(base), "mc_core")]
     runs.append(("rotation: one direction, 8 messages (5 rotations), every partial flush, no adversary",
                  dict(base, MaxMsgs=8, MaxAdv=0, Sizes="{0, 1}", Vals="{1}", WDirs='{"ab"}'), "mc_rot"))
+    runs.append(("full duplex: every call section by section (WStage/WEncHdr/WEncBody/WEnc, FlushHdr/FlushBody, "
+                 "RHdrTake/RHdrOpen/RHdrLen/RBodyTake/RBodyOpen, RHeader/RBody), both directions, 2 messages",
+                 dict(base, MaxAdv=0, Sizes="{0, 1}" if thorough else "{1}", Vals="{1}", Fine="TRUE",
+                      Hold="TRUE" if thorough else "FALSE"), "mc_duplex"))
+    runs.append(("brontide.Conn: Write of 0..3 bytes (chunked above MaxSize = 2), Read with buffers of 0..2 bytes, mixed "
+                 "with WriteMessage/ReadMessage, the caller holding / dropping messages, 1 adversary move",
+                 dict(base, Sizes="{1}", Vals="{1}", CSizes="{0, 1, 3}" if thorough else "{0, 3}",
+                      Wants="{0, 1, 2}" if thorough else "{1, 2}",
+                      Hold="TRUE", WDirs='{"ab"}'), "mc_conn"))
     if thorough:
         runs.append(("one direction, 2 messages, 2 adversary moves",
                      dict(base, MaxAdv=2, Sizes="{0, 1}", Vals="{1}", WDirs='{"ab"}'), "mc_adv2"))
         runs.append(("one direction, 3 messages, 1 adversary move",
                      dict(base, MaxMsgs=3, Sizes="{0, 1}", Vals="{1}", WDirs='{"ab"}'), "mc_3msg"))
     for what, consts, name in runs:
-        ck.model_check(SPEC, "TransportMC", "TransportMC.cfg", what, constants=consts, name=name,
-                       workers=MC_WORKERS, timeout=2400)
+        r = ck.model_check(SPEC, "TransportMC", "TransportMC.cfg", what, constants=consts, name=name,
+                           workers=MC_WORKERS, timeout=2400)
+        if not r.ok or r.distinct == 0:
+            # e.g. the JVM was killed (out of memory on a shared machine): no completion line, no error line
+            raise Inconclusive("TLC did not run %s to completion (rc=%s)" % (name, r.rc))
     ck.cov["exhaustive"] = True
     # the caller contract is necessary: without it the model (which follows the code) delivers bytes never sent
     r = ck.model_check(SPEC, "TransportMC", "TransportMCObs.cfg",
@@ -80,9 +101,13 @@ def model_checking(ck):
 def trace_stats(recs):
     st = dict(lines=len(recs), traces=0, writes=0, delivered=0, read_fail=0, adv=0, hs_fail=0, hs_ok=0,
               partial_flush=0, rot=0, big=0)
+    for k in ("staged", "nested_reads", "flush_split", "hdr_body_split", "nested_writes", "rechecks", "held_rechecked",
+              "releases", "conn_reads", "conn_pieces", "conn_chunked"):
+        st[k] = 0
     distinct = set()
     cur = []
     lastk = {}
+    staged, hdr = set(), set()      # machines whose write half is parked after WStage / whose read half has read a header
     for r in recs:
         a = r["a"]
         if a == "Reset":
@@ -91,15 +116,46 @@ def trace_stats(recs):
                 distinct.add(core.sha(json.dumps(cur)))
             cur = []
             lastk = {}
+            staged, hdr = set(), set()
             continue
+        # follow-up parts: calls of one half of a Machine recorded while its other half is in the middle of a call
+        if a == "WStage" and r["err"] == "":
+            st["staged"] += 1
+            st["writes"] += 1
+            staged.add(r["m"])
+        elif a == "WEnc":
+            staged.discard(r["m"])
+        elif a == "FlushHdr" and r["err"] == "":
+            st["flush_split"] += 1
+        elif a == "FlushHdr":
+            st["partial_flush"] += 1
+        elif a == "FlushBody" and r["err"] == "timeout":
+            st["partial_flush"] += 1
+        elif a == "RHeader" and r["err"] == "":
+            st["hdr_body_split"] += 1
+            hdr.add(r["m"])
+        elif a == "RHeader":
+            st["read_fail"] += 1
+        elif a == "RBody":
+            hdr.discard(r["m"])
+            st["delivered" if r["err"] == "" else "read_fail"] += 1
+        elif a == "Recheck":
+            st["rechecks"] += 1
+            st["held_rechecked"] += len(r["hh"])
+        elif a == "Release":
+            st["releases"] += 1
+        if a in ("Read", "RHeader", "RBody", "CRead") and r["m"] in staged:
+            st["nested_reads"] += 1
+        if a in ("Write", "Flush", "WStage", "WEnc", "FlushHdr", "FlushBody", "CWrite") and r["m"] in hdr:
+            st["nested_writes"] += 1
         cur.append((a, r["m"], r["d"], r["kind"], r["size"], r["k"], r["o1"], r["o2"], r["o3"], r["err"]))
         if a == "CWrite" and r["err"] == "":
             st["writes"] += len(r["hs"])
-            st["conn_chunked"] = st.get("conn_chunked", 0) + (1 if len(r["hs"]) > 1 else 0)
+            st["conn_chunked"] += 1 if len(r["hs"]) > 1 else 0
         elif a == "CRead":
-            st["conn_reads"] = st.get("conn_reads", 0) + 1
-            if r["err"] == "" and r["h"]:
-                st["delivered"] += 1
+            st["conn_reads"] += 1
+            if r["err"] == "" and 0 < r["nn"] == r["k"]:
+                st["conn_pieces"] += 1      # the caller's buffer was filled: (most likely) a piece of a message
         if a == "Write" and r["err"] == "":
             st["writes"] += 1
             if r["size"] >= 65000:
@@ -126,6 +182,14 @@ def trace_stats(recs):
     return st, len(distinct)
 
 
+def validate(ck, path, name):
+    """ck.validate, but a validator that neither accepted nor named a violation (JVM killed) is a tool failure."""
+    v = ck.validate(SPEC, "TransportTrace", "TransportTrace.cfg", path, constants=REAL, name=name, timeout=2400)
+    if not v["ok"] and not v["invariant"]:
+        raise Inconclusive("trace validation did not run to completion (%s, rc=%s)" % (name, v["res"].rc))
+    return v
+
+
 def explain(v, recs):
     bad = recs[min(max((v["line"] or 1) - 1, 0), len(recs) - 1)]
     return bad, "%s at line %s: %s" % (v["invariant"], v["line"], json.dumps(bad)[:500])
@@ -144,8 +208,7 @@ def validate_all(ck, trace, name, what):
     for bi, batch in enumerate(core.split_batches(recs, is_reset, max_bytes=24_000_000)):
         p = os.path.join(ck.out, "%s_batch%d.ndjson" % (name, bi))
         core.write_ndjson(p, batch)
-        v = ck.validate(SPEC, "TransportTrace", "TransportTrace.cfg", p, constants=REAL,
-                        name="val_%s_%d" % (name, bi), timeout=2400)
+        v = validate(ck, p, "val_%s_%d" % (name, bi))
         for m in re.finditer(r'<<"QUIRK", "([^"]+)", (\d+)>>', v["res"].out):
             ln = int(m.group(2))
             a0, _ = core.slice_trace(batch, ln, is_reset)
@@ -171,22 +234,18 @@ def negative_controls(ck, recs):
     """Corrupt one recorded field of a valid trace: validation must reject each."""
     # a short valid trace that contains a delivered message after a key rotation is ideal; take the first
     # trace with >= 1 delivered read, cut to keep the control fast
-    a = b = None
-    for i, r in enumerate(recs):
-        if is_reset(r):
-            if a is not None and any(x["a"] == "Read" and x["err"] == "" for x in recs[a:i]):
-                b = i
-                break
-            a = i
-    if a is None:
-        raise Inconclusive("no trace for the negative control")
-    if b is None:
-        b = len(recs)
-    base = recs[a:min(b, a + 400)]
-    reads = [i for i, r in enumerate(base) if r["a"] == "Read" and r["err"] == ""]
-    writes = [i for i, r in enumerate(base) if r["a"] == "Write" and r["err"] == ""]
-    if not reads or not writes:
-        raise Inconclusive("negative control: trace without a delivered message")
+    # the first trace whose first 400 lines contain a delivered message (cut there to keep the control fast)
+    starts = [i for i, r in enumerate(recs) if is_reset(r)] + [len(recs)]
+    base = reads = writes = None
+    for a, b in zip(starts, starts[1:]):
+        cand = recs[a:min(b, a + 400)]
+        reads = [i for i, r in enumerate(cand) if r["a"] == "Read" and r["err"] == ""]
+        writes = [i for i, r in enumerate(cand) if r["a"] == "Write" and r["err"] == ""]
+        if reads and writes:
+            base = cand
+            break
+    if base is None:
+        raise Inconclusive("negative control: no trace with a delivered message in its first 400 lines")
     i, w = reads[len(reads) // 2], writes[len(writes) // 2]
     rd = "A" if base[i]["m"] == "A" else "B"
     muts = [("receive nonce of the reader -1 after a delivered read", i, rd + "rn", lambda x: x - 1 if x > 0 else x + 1),
@@ -199,11 +258,55 @@ def negative_controls(ck, recs):
         bad[j][f] = fn(bad[j][f])
         p = os.path.join(ck.out, "control.ndjson")
         core.write_ndjson(p, bad)
-        v = ck.validate(SPEC, "TransportTrace", "TransportTrace.cfg", p, constants=REAL, name="control")
+        v = validate(ck, p, "control")
         if v["ok"]:
             raise Inconclusive("negative control accepted (%s): trace validation is not binding" % what)
         ck.cov.setdefault("negative_controls", []).append(
             dict(mutation="%s (line %d)" % (what, j + 1), rejected_by=v["invariant"], at_line=v["line"]))
+
+
+def control_at(ck, sources, what, pred, field, fn):
+    """Corrupt `field` of the first line satisfying pred (its own trace, cut after that line): must be rejected.
+    sources: the driver's trace first, then the generated one (which contains the fixed scenarios)."""
+    for recs in sources:
+        a = 0
+        for i, r in enumerate(recs):
+            if is_reset(r):
+                a = i
+                continue
+            if i - a < 380 and pred(r):
+                bad = copy.deepcopy(recs[a:i + 1])
+                bad[-1][field] = fn(bad[-1][field])
+                p = os.path.join(ck.out, "control.ndjson")
+                core.write_ndjson(p, bad)
+                v = validate(ck, p, "control")
+                if v["ok"]:
+                    raise Inconclusive("negative control accepted (%s): trace validation is not binding" % what)
+                ck.cov.setdefault("negative_controls", []).append(
+                    dict(mutation="%s (line %d)" % (what, i - a + 1), rejected_by=v["invariant"], at_line=v["line"]))
+                return
+    raise Inconclusive("negative control: no line to corrupt for '%s'" % what)
+
+
+def flip(h):
+    return ("00" if not h.startswith("00") else "11") + h[2:]
+
+
+def negative_controls_followup(ck, gen, free, conn):
+    control_at(ck, (free, gen), "a held message re-hashed differently (Recheck)",
+               lambda r: r["a"] == "Recheck" and len(r["hh"]) >= 2, "hh", lambda x: [flip(x[0])] + x[1:])
+    control_at(ck, (free, gen), "send nonce after the parked WriteMessage ran on (WEnc) one short",
+               lambda r: r["a"] == "WEnc" and r["err"] == "", "Asn", lambda x: x - 1 if x > 0 else x + 1)
+    control_at(ck, (free, gen), "WriteMessage parked at its scheduling point (WStage) has already encrypted",
+               lambda r: r["a"] == "WStage" and r["err"] == "" and r["m"] == "B", "Bsn", lambda x: x + 2)
+    control_at(ck, (free, gen), "length returned by ReadNextHeader + 1",
+               lambda r: r["a"] == "RHeader" and r["err"] == "", "nn", lambda x: x + 1)
+    control_at(ck, (free, gen), "Flush parked between header and body reports the header as not accepted",
+               lambda r: r["a"] == "FlushHdr" and r["err"] == "", "err", lambda x: "timeout")
+    control_at(ck, (conn, gen), "Conn.Read returned one byte more",
+               lambda r: r["a"] == "CRead" and r["err"] == "" and r["nn"] > 0, "nn", lambda x: x + 1)
+    control_at(ck, (conn, gen), "bytes handed out by Conn.Read for a drained message altered",
+               lambda r: r["a"] == "CRead" and r["err"] == "" and 0 < r["nn"] < r["k"], "h", flip)
 
 
 CONN_EOF_KEY = "conn-read:empty-message:eof"
@@ -244,6 +347,29 @@ SCENARIOS = {
     "everybyte": sum([[("Write", "A", "ab", 3, -1, 0, 0)] +
                       sum([[("Flush", "A", "ab", 0, 0, 1, 0), ("Write", "A", "ab", 1, -1, 0, 0)] for _ in range(37)], []) +
                       [("Read", "B", "ab", 0, 0, 0, 0)]], []),
+    # (g) full duplex: a header of an incoming message is read while the write half is parked in WriteMessage
+    # (lengths differ), in both roles; ReadNextHeader .. ReadNextBody with a write and a flush in between;
+    # Flush parked between header and body while the read half reads
+    "duplex_stage": [("Write", "A", "ab", 7, -1, 0, 0), ("Flush", "A", "ab", 0, 0, 1000, 0),
+                     ("WStage", "B", "ba", 300, -1, 0, 0), ("RHeader", "B", "ab", 0, 0, 0, 0), ("WEnc", "B", "ba", 0, 0, 0, 0),
+                     ("Flush", "B", "ba", 0, 0, 1000, 0), ("RBody", "B", "ab", 0, 0, 0, 0), ("Read", "A", "ba", 0, 0, 0, 0),
+                     ("Write", "B", "ba", 41, -1, 0, 0), ("Flush", "B", "ba", 0, 0, 1000, 0),
+                     ("WStage", "A", "ab", 2, 513, 0, 0), ("Read", "A", "ba", 0, 0, 0, 0), ("WEnc", "A", "ab", 0, 0, 0, 0),
+                     ("Flush", "A", "ab", 0, 0, 1000, 0), ("Read", "B", "ab", 0, 0, 0, 0),
+                     ("Recheck", "B", "ab", 0, 0, 0, 0), ("Recheck", "A", "ba", 0, 0, 0, 0)],
+    "duplex_hdr": [("Write", "A", "ab", 316, -1, 0, 0), ("Flush", "A", "ab", 0, 0, 1000, 0), ("RHeader", "B", "ab", 0, 0, 0, 0),
+                   ("Write", "B", "ba", 17, -1, 0, 0), ("FlushHdr", "B", "ba", 0, 0, 30, 0), ("RBody", "B", "ab", 0, 0, 0, 0),
+                   ("FlushBody", "B", "ba", 0, 0, 0, 0), ("Flush", "B", "ba", 0, 0, 1000, 0), ("Read", "A", "ba", 0, 0, 0, 0),
+                   ("Write", "A", "ab", 0, -1, 0, 0), ("FlushHdr", "A", "ab", 0, 0, 5, 0), ("FlushHdr", "A", "ab", 0, 0, 1000, 0),
+                   ("FlushBody", "A", "ab", 0, 0, 0, 0), ("Read", "B", "ab", 0, 0, 0, 0), ("Recheck", "B", "ab", 0, 0, 0, 0)],
+    # (f) the caller keeps every message while it reads on (sizes not increasing), then looks at all of them
+    "hold": sum([[("Write", "A", "ab", n, -1, 0, 0), ("Flush", "A", "ab", 0, 0, 100000, 0)] for n in (300, 300, 23, 0, 1, 65535, 2)], []) +
+            [("Read", "B", "ab", 0, 0, 0, 0)] * 5 + [("Recheck", "B", "ab", 0, 0, 0, 0)] + [("Read", "B", "ab", 0, 0, 0, 0)] * 2 +
+            [("Recheck", "B", "ab", 0, 0, 0, 0), ("Release", "B", "ab", 0, 0, 0, 0), ("Recheck", "B", "ab", 0, 0, 0, 0)],
+    # (h) Conn.Read with a small buffer: every message handed out in several pieces
+    "connpieces": [("CWrite", "B", "ba", 36, -1, 0, 0), ("CWrite", "B", "ba", 14, -1, 0, 0), ("CWrite", "B", "ba", 3, -1, 0, 0)] +
+                  [("CRead", "A", "ba", 0, 0, 4, 0)] * 15 + [("CWrite", "B", "ba", 23, -1, 0, 0), ("CRead", "A", "ba", 0, 0, 5, 0)] +
+                  [("CRead", "A", "ba", 0, 0, 9, 0)] * 2 + [("CRead", "A", "ba", 0, 0, 100, 0)],
 }
 
 
@@ -323,7 +449,7 @@ def run(ck):
 
     # (c) free-running seeded driver
     res = ck.go_test(PKG, "^TestVerifC11Free$", HARNESS, extra_overlay=overlay(), name="free",
-                     env={"VERIF_SESSIONS": 300 if thorough else 60, "VERIF_STEPS": 220 if thorough else 150}, timeout=1500)
+                     env={"VERIF_SESSIONS": 400 if thorough else 100, "VERIF_STEPS": 220 if thorough else 150}, timeout=1500)
     trace = os.path.join(res["dir"], "trace.ndjson")
     if res["rc"] != 0 or not os.path.exists(trace):
         raise Inconclusive("free-running driver failed:\n" + res["out"][-3000:])
@@ -341,11 +467,19 @@ def run(ck):
         raise Inconclusive("Conn driver failed:\n" + res["out"][-3000:])
     ok3, recs3 = validate_all(ck, trace, "conn", "brontide.Conn driver")
     conn_quirk(ck, recs3)
+    if ok and ok2 and ok3:
+        negative_controls_followup(ck, recs, recs2, recs3)
+        ck.cov["samples"].append({"duplex_write_parked_while_reading": [
+            {k: r[k] for k in ("a", "m", "d", "size", "err", "nn", "Asn", "Arn", "Bsn", "Brn", "Lab", "Lba")}
+            for r in next((recs2[i:i + 4] for i, x in enumerate(recs2) if x["a"] == "WStage" and x["err"] == ""
+                           and recs2[i + 1]["a"] in ("Read", "RHeader") and recs2[i + 1]["m"] == x["m"]), [])]})
 
     ev = ck.cov.get("events", {})
     if ok and ok2 and ok3:
         # vacuity: the run must have exercised what the property talks about
-        need = dict(delivered=1000, read_fail=20, adv=20, partial_flush=200, rot=4, hs_fail=3, big=3, frag_acts=30)
+        need = dict(delivered=1000, read_fail=20, adv=20, partial_flush=200, rot=4, hs_fail=3, big=3, frag_acts=30,
+                    staged=40, nested_reads=15, flush_split=20, hdr_body_split=40, nested_writes=15, rechecks=40,
+                    held_rechecked=300, releases=10, conn_reads=200, conn_pieces=60, conn_chunked=5)
         low = {k: ev.get(k, 0) for k, n in need.items() if ev.get(k, 0) < n}
         if low:
             raise Inconclusive("run too thin to support the verdict: %s (needed %s)" % (low, need))
@@ -355,8 +489,12 @@ def run(ck):
     ck.cov["trusted_base"] = ["TLC 1.8.0", "CommunityModules Json",
                               "abstraction: ChaCha20-Poly1305 / HKDF / ECDH are perfect (Open succeeds iff exactly one whole "
                               "Seal output under the same key and nonce); distinct keys have distinct SHA-256 fingerprints",
-                              "executor: scripted pipe + projection (len(nextHeaderSend/nextBodySend), nonces, key hash, payload hash)"]
+                              "executor: scripted pipe + projection (len(nextHeaderSend/nextBodySend), nonces, key hash, payload hash)",
+                              "executor: a half of a Machine is parked at a scheduling point that exists in the real code "
+                              "(sync.Pool.New of headerBufferPool inside WriteMessage, the second Write of Flush on the wire); "
+                              "the finer sections (between the two Encrypt calls, inside ReadHeader) are covered by TLC only"]
     ck.assumptions += ["ReaderStops: the caller never calls ReadMessage again after an error (peer.Brontide.readHandler "
                        "disconnects); without it see note O-C11-1 - trace validation itself runs WITHOUT this assumption",
                        "a read on an incomplete stream is modelled as the stream ending there (io.ReadFull -> EOF)",
-                       "'all key pairs' is sampled: fresh random static and ephemeral keys per trace"]
+                       "'all key pairs' is sampled: fresh random static and ephemeral keys per trace",
+                       "ReadNextBody is given a buffer of exactly the length ReadNextHeader returned (documented caller contract)"]
